@@ -2,7 +2,7 @@
 EXTENDS Timeout, Json
 Export == (done /\ result # <<>>) =>
    PrintT(<<"CASE", ToJson([place |-> place, use |-> use, child |-> child, hist |-> hist, env |-> envSet,
-                            killed |-> proc = "killed", status |-> result[3], phase |-> result[2],
+                            killed |-> proc = "killed", atStart |-> AtStart(hist), status |-> result[3], phase |-> result[2],
                             cleanupRan |-> \E a \in 1..Len(log) : log[a][1] = "main" /\ log[a][2] = "cleanup" /\ log[a][4] = "ok" /\ log[a][3] = n["cleanup"],
                             sds |-> sds, ticks |-> total])>>)
 =============================================================================
